@@ -297,6 +297,13 @@ class Extract(Function):
         super().__init__("EXTRACT", date_part, alias=alias)
         self.field = field
 
+    @builder
+    def replace_table(  # type:ignore[return]
+        self, current_table: "Table" | None, new_table: "Table" | None
+    ) -> "Self":
+        self.args = [param.replace_table(current_table, new_table) for param in self.args]
+        self.field = self.field.replace_table(current_table, new_table)
+
     def get_special_params_sql(self, ctx: SqlContext) -> str:
         return "FROM {field}".format(field=self.field.get_sql(ctx))
 
